@@ -841,6 +841,19 @@ def feature_folds(P, rep, rule="FOLD"):
     rep.floor(rule, n, 18, "model folds and tag writes in the 6 features")
 
 
+def _seed_slot(P, F, stmt, up):
+    """what identifies an arithmetic seed independently of the names of locals: the component it is stored to and the operation"""
+    tgt = stmt["c"][0] if stmt.get("k") == "BinaryOperator" else None
+    comp = "?"
+    if tgt is not None:
+        sb = astq.subscript(sc(tgt))
+        if sb and sc(sb[1]).get("k") == "IntegerLiteral":
+            comp = str(sc(sb[1])["v"])
+    u = sc(up)
+    lits = [str(y.get("v")) for y in F.walk(u) if y.get("k") in ("IntegerLiteral", "FloatingLiteral")]
+    return "component %s %s %s" % (comp, u.get("op", "?"), ",".join(lits[:2]))
+
+
 def seed_copies(P, rep, rule="FOLD.seed"):
     """the painted value enters a feature's computation only as a copy of its own element"""
     rep.rule(rule, "inside a feature a value read from the result vector is used only as a whole: it initialises or is assigned to a "
@@ -925,7 +938,7 @@ def seed_copies(P, rep, rule="FOLD.seed"):
                         break
                 rep.violation(rule, "%s: %s is combined arithmetically (%s)" % (F.qn, norm.render(P, node)[:50], norm.render(P, up)[:60]), F.nloc(up), F.qn,
                               norm.render(P, stmt)[:160], "the value the models start from is not the value painted so far",
-                              key="%s|%s|%s|arith" % (rule, F.qn, norm.render(P, stmt["c"][0])[:40] if stmt.get("k") == "BinaryOperator" else stmt.get("n")),
+                              key="%s|%s|%s|arith" % (rule, F.qn, _seed_slot(P, F, stmt, up)),
                               witness="a covering feature of this type without (or with an out-of-range / add) model of this kind over a plate that painted a value")
                 continue
             # comparisons, asserts, isnan... do not change the value
